@@ -185,6 +185,7 @@ func removeMetricsSegmentsByList(metricsMetaFile string, metricsSegmentsToDelete
 
 	preservedEntries := make([]*structs.MetricsMeta, 0)
 	tagsTreeToDelete := make(map[string]bool)
+	removedSegmentDirs := make([]string, 0)
 
 	entriesRead := 0
 	entriesRemoved := 0
@@ -212,19 +213,24 @@ func removeMetricsSegmentsByList(metricsMetaFile string, metricsSegmentsToDelete
 			continue
 		}
 		entriesRemoved++
-		dir := path.Dir(metricSegmentMeta.MSegmentDir)
-		if err := os.RemoveAll(dir); err != nil {
-			log.Errorf("removeMetricsSegmentsByList: Failed to remove directory name=%v, err:%v",
-				metricSegmentMeta.MSegmentDir, err)
-		}
-		fileutils.RecursivelyDeleteEmptyParentDirectories(dir)
+		removedSegmentDirs = append(removedSegmentDirs, metricSegmentMeta.MSegmentDir)
 
 		if _, ok := tagsTreeToDelete[metricSegmentMeta.TTreeDir]; !ok {
 			tagsTreeToDelete[metricSegmentMeta.TTreeDir] = true
 		}
 	}
 	if err := reader.Err(); err != nil {
+		// only a part of the file was read: rewriting it from that part would drop every entry behind it
 		log.Errorf("removeMetricsSegmentsByList: Error while scanning file: %v, err: %v", metricsMetaFile, err)
+		return
+	}
+	for _, mSegmentDir := range removedSegmentDirs {
+		dir := path.Dir(mSegmentDir)
+		if err := os.RemoveAll(dir); err != nil {
+			log.Errorf("removeMetricsSegmentsByList: Failed to remove directory name=%v, err:%v",
+				mSegmentDir, err)
+		}
+		fileutils.RecursivelyDeleteEmptyParentDirectories(dir)
 	}
 	if entriesRemoved > 0 {
 		// if we removed entries and there was nothing preserved then we must delete this metrics meta file
